@@ -4333,6 +4333,26 @@ fn parse_text_qualifiers<'a>(
     }
 }
 
+/// Integer operand of a data operator: `-` alone or a number beyond the integer range is a syntax error
+fn parse_int_value(value: &str) -> Result<isize, StamError> {
+    value.parse().map_err(|_| {
+        StamError::QuerySyntaxError(
+            format!("Expected an integer value (in range), got '{}'", value),
+            "",
+        )
+    })
+}
+
+/// Float operand of a data operator
+fn parse_float_value(value: &str) -> Result<f64, StamError> {
+    value.parse().map_err(|_| {
+        StamError::QuerySyntaxError(
+            format!("Expected a floating point value, got '{}'", value),
+            "",
+        )
+    })
+}
+
 fn parse_dataoperator<'a>(
     opstr: &'a str,
     value: &'a str,
@@ -4348,19 +4368,19 @@ fn parse_dataoperator<'a>(
             _ => unreachable!("boolean should be true or false"),
         },
         ("=", ArgType::Integer) => {
-            DataOperator::EqualsInt(value.parse().expect("str->int conversion should work"))
+            DataOperator::EqualsInt(parse_int_value(value)?)
         }
         ("=", ArgType::Float) => {
-            DataOperator::EqualsFloat(value.parse().expect("str->float conversion should work"))
+            DataOperator::EqualsFloat(parse_float_value(value)?)
         }
         ("!=", ArgType::String) => {
             DataOperator::Not(Box::new(DataOperator::Equals(Cow::Borrowed(value))))
         }
         ("!=", ArgType::Integer) => DataOperator::Not(Box::new(DataOperator::EqualsInt(
-            value.parse().expect("str->int conversion should work"),
+            parse_int_value(value)?,
         ))),
         ("!=", ArgType::Float) => DataOperator::Not(Box::new(DataOperator::EqualsFloat(
-            value.parse().expect("str->float conversion should work"),
+            parse_float_value(value)?,
         ))),
         ("!=", ArgType::Null) => DataOperator::Not(Box::new(DataOperator::Null)),
         ("!=", ArgType::Any) => DataOperator::Not(Box::new(DataOperator::Any)), //this is a tautology, always fails
@@ -4392,28 +4412,28 @@ fn parse_dataoperator<'a>(
             DataOperator::Not(Box::new(DataOperator::Or(values)))
         }
         (">", ArgType::Integer) => {
-            DataOperator::GreaterThan(value.parse().expect("str->int conversion should work"))
+            DataOperator::GreaterThan(parse_int_value(value)?)
         }
         (">=", ArgType::Integer) => DataOperator::GreaterThanOrEqual(
-            value.parse().expect("str->int conversion should work"),
+            parse_int_value(value)?,
         ),
         ("<", ArgType::Integer) => {
-            DataOperator::LessThan(value.parse().expect("str->int conversion should work"))
+            DataOperator::LessThan(parse_int_value(value)?)
         }
         ("<=", ArgType::Integer) => {
-            DataOperator::LessThanOrEqual(value.parse().expect("str->int conversion should work"))
+            DataOperator::LessThanOrEqual(parse_int_value(value)?)
         }
         (">", ArgType::Float) => DataOperator::GreaterThanFloat(
-            value.parse().expect("str->float conversion should work"),
+            parse_float_value(value)?,
         ),
         (">=", ArgType::Float) => DataOperator::GreaterThanOrEqualFloat(
-            value.parse().expect("str->float conversion should work"),
+            parse_float_value(value)?,
         ),
         ("<", ArgType::Float) => {
-            DataOperator::LessThanFloat(value.parse().expect("str->float conversion should work"))
+            DataOperator::LessThanFloat(parse_float_value(value)?)
         }
         ("<=", ArgType::Float) => DataOperator::LessThanOrEqualFloat(
-            value.parse().expect("str->float conversion should work"),
+            parse_float_value(value)?,
         ),
         ("=", ArgType::List) => {
             let values: Vec<_> = value
